@@ -62,3 +62,23 @@ func harnessC25StartFailureRace() {
 	// so that a further request cannot push the real number of sessions beyond the maximum
 	verif_assert(e.AcquireSession() == nil && e.AcquireSession() != nil, "C25/concurrent-sessions-exceed-maximum")
 }
+
+// two requests race for the last free slot (every interleaving at lock
+// granularity): at most one gets it
+func harnessC25AcquireRace() {
+	e := NewExecutor(Config{Enabled: true, MaxSessions: 2})
+	verif_assert(e.AcquireSession() == nil, "C25/setup")
+	var errA, errB error
+	done := false
+	go func() {
+		errA = e.AcquireSession()
+		done = true
+	}()
+	errB = e.AcquireSession()
+	verif_drain()
+	verif_reach("C25/acquire-race")
+	verif_assert(done, "C25/acquire-did-not-finish")
+	verif_assert(errA != nil || errB != nil, "C25/concurrent-sessions-exceed-maximum")
+	verif_assert(errA == nil || errB == nil, "C25/free-slot-refused-to-both-requests")
+	verif_assert(e.ActiveSessions() == 2, "C25/concurrent-sessions-exceed-maximum")
+}
